@@ -453,7 +453,7 @@ func init() {
 			if !c.Quick() {
 				n = 5000
 			}
-			o := histOpts{families: []string{"agg"}, maxIdx: 2, minBatches: 3, maxBatches: 10, maxEvents: 60, restarts: true}
+			o := histOpts{families: []string{"agg"}, maxIdx: 2, minBatches: 3, maxBatches: 10, maxEvents: 60, restarts: true, noColumnDropout: true}
 			if !c.Quick() {
 				o.maxEvents = 300
 			}
